@@ -13,8 +13,8 @@ _cache = {}
 
 def cpu_names():
     out = []
-    for f in sorted(glob.glob("/repo/amoco/arch/**/cpu*.py", recursive=True)):
-        out.append(f[len("/repo/"):-3].replace("/", "."))
+    for f in sorted(glob.glob(bootstrap.REPO + "/amoco/arch/**/cpu*.py", recursive=True)):
+        out.append(f[len(bootstrap.REPO) + 1:-3].replace("/", "."))
     return out
 
 
